@@ -167,7 +167,8 @@ def history_case(ctx, i, rng):
     hist = []
     for step in range(int(rng.integers(3, 7))):
         with np.errstate(all="ignore"):
-            e.calc_jacobians()  # a first call that a cache could remember
+            e.calc_error()
+            e.calc_jacobians()  # first calls that a cache / stored flag could remember
         hist.append(mutate_operand(rng, e))
         case = {"edge": spec, "history": list(hist), "poses": [M.fl(v.pose) for v in e.vertices], "estimate": M.fl(e.estimate),
                 "offset": M.fl(e.offset) if getattr(e, "offset", None) is not None else None}
